@@ -511,7 +511,13 @@ func isXMLSanitiser(p *Program, f *ssa.Function) bool {
 	return esc
 }
 
-func ruleRawXML(r *Run) {
+func ruleRawXML(r *Run) { rawXML(r, true) }
+
+// ruleRawXMLSplice: only the string-surgery sinks of the template code (C18: the property is about
+// template values landing in raw header/footer XML, not about the formula API).
+func ruleRawXMLSplice(r *Run) { rawXML(r, false) }
+
+func rawXML(r *Run, innerToo bool) {
 	p := r.P
 	conv := valueToStringFuncs(p)
 	n := 0
@@ -575,6 +581,10 @@ func ruleRawXML(r *Run) {
 			r.Check("raw-xml", shortName(top)+":value", ret.Pos(), san,
 				fmt.Sprintf("%s splices a data value into raw XML text; the value passes through %s, which is not an encoding/xml escaper: characters that are not legal in XML (e.g. U+0001) survive and make the part ill-formed", shortName(top), name))
 		}
+	}
+	if !innerToo {
+		r.Min("raw_xml_splice_sinks", n, 1)
+		return
 	}
 	// (2) innerxml fields: whatever is stored there is emitted verbatim
 	for _, fn := range p.ModFuncs() {
